@@ -31,6 +31,7 @@ EXPLANATION = (
     "filters precede accepting ones (the first non-None verdict decides).  R02.7 (=R01.7): merged name tables give the winner the language "
     "prescribes.  R02.8 (=R01.8): absolute module names are searched on the path before the importer's own folder.  R02.9: the definition-header keyword table covers def, async def and class.  R02.10: a package's __init__ names take precedence over its submodules.  R02.11 (=R14.6): the line table that maps offsets to the interpreter's line numbers breaks lines at '\\n' only.  That each candidate evaluates to "
     "the right binding is otherwise not decided."
+    ' R02.15 (=R01.11): `__init__` is the call target only of a class.'
 )
 ASSUMPTIONS = ["re alternation is ordered (leftmost position, first alternative wins)",
                "the name searched for is a plain identifier (symbolic NAME in the folded pattern)"]
